@@ -85,6 +85,7 @@ type hsClient struct {
 	Debug      int  // 0 plain Dialer.Upgrade, 1 DebugDialer (both callbacks), 2 OnRequest only, 3 OnResponse only, 4 plain Dialer.Dial
 	Wrap       bool // Dial paths: the application installs its own WrapConn
 	Reuse      bool // DebugDialer: the same value has already been used for an earlier Dial
+	Odd        bool // the extra header has a name net/http refuses (ws.Upgrader hands it to OnHeader like any other)
 }
 
 type hsServer struct {
@@ -150,7 +151,9 @@ func drawHS(r *eng.Run) (hsClient, hsServer) {
 		name := extNames[r.T.Int(sim.LCfg, len(extNames))]
 		c.Exts = append(c.Exts, extSpec{Name: name, Params: drawParams(r, name == "permessage-deflate")})
 	}
-	switch r.T.Int(sim.LCfg, 5) {
+	switch r.T.Int(sim.LCfg, 6) {
+	case 5:
+		c.Header, c.Odd = "X-First: 1\r\nX-Trace@Id: 7\r\nX-Last: 3\r\n", true
 	case 1:
 		c.Header = "X-Custom: value\r\n"
 	case 2:
@@ -766,7 +769,15 @@ func headEnd(b []byte) int {
 // checkWrappers is oracle O3.
 func checkWrappers(r *eng.Run, t *hsTrip) {
 	sv, cl := t.Server, t.Client
-	if sv.HasOnReq && !bytes.Equal(sv.OnReq, t.Request) {
+	if sv.HasOnReq && t.C.Odd {
+		// net/http, which the wrapper uses to find the end of the request,
+		// gives up inside such a head: OnRequest then has what had arrived by
+		// then. Only the outcome is asserted for these requests (DESIGN §8).
+		if !bytes.HasPrefix(t.Request, sv.OnReq) {
+			r.Failf("debug_upgrader_request_bytes", "DebugUpgrader.OnRequest got %d bytes that are not a prefix of the request%s", len(sv.OnReq), firstDiff(sv.OnReq, t.Request))
+		}
+		r.Probe("request_net_http_refuses")
+	} else if sv.HasOnReq && !bytes.Equal(sv.OnReq, t.Request) {
 		r.Failf("debug_upgrader_request_bytes", "DebugUpgrader.OnRequest got %d bytes, the request has %d%s", len(sv.OnReq), len(t.Request), firstDiff(sv.OnReq, t.Request))
 	}
 	if sv.HasOnResp && !bytes.Equal(sv.OnResp, sv.Head) {
@@ -853,6 +864,17 @@ func C11(r *eng.Run) {
 			r.Failf("post_handshake_bytes_lost", "as concurrent tasks: server sent %d bytes behind the 101, the client could read %d (err %v, debug=%d)", len(s.Trailing), len(cl.Rest), cl.RestErr, c.Debug)
 		}
 		r.Probe("handshake_as_two_tasks")
+	}
+	// O3b: the wrapper must not change the outcome: the plain upgrader on the
+	// same bytes with the same segmentation.
+	if s.Kind == 2 {
+		sp := s
+		sp.Kind = 0
+		plain := runServer(r, sp, pipeFor(r, t.Request, segS))
+		if errStr(plain.Err) != errStr(t.Server.Err) || plain.Protocol != t.Server.Protocol || !sameStrings(extStrings(plain.Exts), extStrings(t.Server.Exts)) || !bytes.Equal(plain.Head, t.Server.Head) {
+			r.Failf("debug_upgrader_changes_outcome", "ws.Upgrader alone: %s (%d bytes written); through DebugUpgrader: %s (%d bytes written)\n  %s\n  %s",
+				plain.summary(), len(plain.Head), t.Server.summary(), len(t.Server.Head), c, s)
+		}
 	}
 	// O2: the same peer on the same bytes with one segment and default buffers.
 	sb, cb := s, c
